@@ -239,6 +239,8 @@ def run_cmd(world, cmd, args, stdin=b'', plan=None, cwd=None, env=None,
     if cmd == 'put' and 'TRASH_PUT_FAKE_UID_FOR_TESTING' not in e:
         pass  # os.getuid is patched by the shim; keep the env like a user's
     plan = dict(DEFAULT_PLAN, **(plan or {}))
+    if getattr(world, 'desc', None) and world.desc.get('drop_caps'):
+        plan['drop_caps'] = True      # permissions bite as for an ordinary owner
     if contracts is None:
         contracts = DEFAULT_CONTRACTS
     cwd = cwd or world.cwd()
@@ -371,6 +373,8 @@ def run_cold(world, cmd, args, stdin=b'', plan=None, cwd=None, env=None,
             else:
                 e[k] = v
     plan = dict(DEFAULT_PLAN, **(plan or {}))
+    if getattr(world, 'desc', None) and world.desc.get('drop_caps'):
+        plan['drop_caps'] = True      # permissions bite as for an ordinary owner
     if contracts is None:
         contracts = DEFAULT_CONTRACTS
     res = Result()
